@@ -1098,3 +1098,130 @@ def dispatch_obligations(repo):
                     out.append(('diff_single_outputs: %s(...) at line %d passes path=%s and config=config' % (name, call.lineno, want_path),
                                 kws.get('path') == want_path and kws.get('config') == 'config'))
     return out
+
+
+# ------------------------------------------------------------------------------------------ Kit S (strings): interface agreement
+# The string differ and the string patcher are under ASSUMED functional contracts (Kit S is not built).  What IS discharged here is
+# the interface both contracts lean on: both sides cut a string into lines with the same function, `str.splitlines(True)`, the
+# differ hands exactly these two line lists to diff_lists, and patch_string joins what patch_list makes of the characters and the
+# flattened diff.  (A differ and a patcher that disagree on where lines end silently corrupt every string with an unusual line break.)
+
+STRINGS = dict(COMMON, **{
+    '*.splitlines': {'effect': None, 'raises': False}, '*.join': {'effect': None, 'raises': False},
+    'builtins.list': {'effect': None, 'raises': False}, 'collections.defaultdict': {'effect': None, 'raises': False},
+    'nbdime.diffing.config.DiffConfig': {'effect': None, 'raises': False},
+    'nbdime.diffing.generic.diff_lists': {'effect': 'diff_lists', 'raises': True},
+    'nbdime.diff_utils.flatten_list_of_string_diff': {'effect': 'flatten', 'raises': True},
+    'nbdime.patching.patch_list': {'effect': 'patch_list', 'raises': True},
+})
+
+
+def ds_lines_keepends(path):
+    "diff_lists receives cut(a) and cut(b), in this order, for one and the same pure cutting function with the same extra arguments"
+    ex = _eff(path, 'diff_lists')
+    if not ex:
+        return None
+    a, b = path.env['a'], path.env['b']
+    if len(ex) != 1 or len(ex[0].args) < 2:
+        return False, 'diff_lists is not called exactly once with two positional line lists'
+    ta, tb = as_py(ex[0].args[0]), as_py(ex[0].args[1])
+    import re as _re
+    norm = lambda t: _re.sub(r'<[^>]*>', '<_>', t.decl().name())       # a method's function symbol carries its receiver's name
+    if ta.num_args() == 0 or tb.num_args() == 0:
+        return None          # cut by a helper this table does not know: the shape-agreement obligation decides
+    if tb.num_args() != ta.num_args() or norm(ta) != norm(tb):
+        return False, 'the two line lists are not produced by the same pure function'
+    pa = [i for i in range(ta.num_args()) if ta.arg(i).eq(as_py(a))]
+    ok = len(pa) >= 1 and all(tb.arg(i).eq(as_py(b)) if i in pa else tb.arg(i).eq(ta.arg(i)) for i in range(ta.num_args()))
+    return ok, 'the lists diffed are %s applied to a and to b' % norm(ta)
+
+
+def ds_result_is_list_diff(path):
+    "a returning path yields the diff_lists result, or the empty diff when it never called diff_lists"
+    if path.outcome != 'return':
+        return None
+    ex = _eff(path, 'diff_lists')
+    if ex:
+        return as_py(path.value).eq(as_py(ex[0].result)), 'the result is what diff_lists returned'
+    v = path.value
+    return (v.kind == 'const' and v.t == []), 'without a list diff the result is the empty diff'
+
+
+def ps_join_of_patch_list(path):
+    "patch_string returns ''.join(patch_list(list(obj), flatten_list_of_string_diff(obj, diff)))"
+    if path.outcome != 'return':
+        return None
+    fl, pl = _eff(path, 'flatten'), _eff(path, 'patch_list')
+    obj, diff = path.env['obj'], path.env.get('diff')
+    if len(fl) != 1 or len(pl) != 1:
+        return False, 'flatten / patch_list are not each called exactly once'
+    from pyvc.effects import as_py as _ap, const as _c
+    ok = _ap(fl[0].args[0]).eq(_ap(obj)) and _ap(pl[0].args[1]).eq(_ap(fl[0].result))
+    lst = _ap(pl[0].args[0])
+    ok = ok and lst.decl().name().endswith('builtins.list') and lst.arg(0).eq(_ap(obj))
+    ret = _ap(path.value)
+    ok = ok and ret.decl().name().endswith('.join') and any(ret.arg(i).eq(_ap(pl[0].result)) for i in range(ret.num_args())) \
+        and "''" in _consts_in(ret)
+    return ok, "the characters of obj and the flattened diff go to patch_list, whose result is joined with ''"
+
+
+KIT_S_JOBS = [
+    ('nbdime.diffing.sequences.diff_strings_linewise', STRINGS, [('lines-keepends', ds_lines_keepends), ('result-is-list-diff', ds_result_is_list_diff)], False),
+    ('nbdime.patching.patch_string', STRINGS, [('join-of-patch-list', ps_join_of_patch_list)], False),
+]
+
+
+def kit_s_split_obligations(repo):
+    """Agreement of the two sides on where lines end: the expression that cuts `a` (and `b`) into the line lists handed to diff_lists
+    in diff_strings_linewise, and the expression that cuts the string in flatten_list_of_string_diff, have the same shape
+    (e.g. `_.splitlines(True)` on both sides, or the same helper called the same way)."""
+    import ast as _ast
+    import os as _os
+
+    def fn_node(rel, name):
+        tree = _ast.parse(open(_os.path.join(repo, rel)).read())
+        return next((n for n in _ast.walk(tree) if isinstance(n, _ast.FunctionDef) and n.name == name), None)
+
+    class _Norm(_ast.NodeTransformer):
+        def __init__(self, var):
+            self.var = var
+
+        def visit_Name(self, node):
+            return _ast.copy_location(_ast.Name(id='_', ctx=node.ctx), node) if node.id == self.var else node
+
+    def shape(expr, var):
+        import copy as _copy
+        return _ast.unparse(_Norm(var).visit(_copy.deepcopy(expr)))
+
+    out = []
+    d = fn_node('nbdime/diffing/sequences.py', 'diff_strings_linewise')
+    f = fn_node('nbdime/diff_utils.py', 'flatten_list_of_string_diff')
+    if d is None or f is None:
+        return [('diff_strings_linewise and flatten_list_of_string_diff exist', False)]
+    dparams = [x.arg for x in d.args.args]
+    call = next((c for c in _ast.walk(d) if isinstance(c, _ast.Call) and _ast.unparse(c.func).split('.')[-1] == 'diff_lists'), None)
+    if call is None or len(call.args) < 2 or len(dparams) < 2:
+        return [('diff_strings_linewise hands two line lists to diff_lists', False)]
+    shapes = []
+    for arg, var in zip(call.args[:2], dparams[:2]):
+        expr = arg
+        if isinstance(arg, _ast.Name):
+            asg = [n for n in _ast.walk(d) if isinstance(n, _ast.Assign) and len(n.targets) == 1 and isinstance(n.targets[0], _ast.Name)
+                   and n.targets[0].id == arg.id]
+            if len(asg) != 1:
+                out.append(('the line list %s of diff_strings_linewise is assigned exactly once' % arg.id, False))
+                continue
+            expr = asg[0].value
+        uses = {n.id for n in _ast.walk(expr) if isinstance(n, _ast.Name)} & set(dparams)
+        out.append(('line list %d of diff_strings_linewise is cut from its own string only (%s)' % (len(shapes) + 1, _ast.unparse(expr)), uses == {var}))
+        shapes.append(shape(expr, var))
+    if len(shapes) == 2:
+        out.append(('both strings are cut the same way on the diff side: %s / %s' % tuple(shapes), shapes[0] == shapes[1]))
+    fvar = f.args.args[0].arg
+    cuts = [n for n in _ast.walk(f) if isinstance(n, _ast.Assign) and len(n.targets) == 1 and isinstance(n.targets[0], _ast.Name)
+            and n.targets[0].id == fvar and any(isinstance(x, _ast.Name) and x.id == fvar for x in _ast.walk(n.value))]
+    out.append(('flatten_list_of_string_diff cuts its string argument in exactly one place', len(cuts) == 1))
+    if len(cuts) == 1 and shapes:
+        ps = shape(cuts[0].value, fvar)
+        out.append(('differ and patcher cut strings into lines the same way: %s (diff side) vs %s (patch side)' % (shapes[0], ps), ps == shapes[0]))
+    return out
